@@ -29,6 +29,8 @@ def runContainers (lines : List String) : List String :=
       match words l with
       | "vinit" :: h :: xs =>
         let st := applyOp st (.init (hnum h) (xs.map nat!)); go st rest (vecLine (hnum h) (st.spec.get (hnum h)) :: acc)
+      | "vrange" :: h :: xs =>
+        let st := applyOp st (.init (hnum h) (xs.map nat!)); go st rest (vecLine (hnum h) (st.spec.get (hnum h)) :: acc)
       | ["vcopy", h, g] => let st := applyOp st (.copy (hnum h) (hnum g)); go st rest (vecLine (hnum h) (st.spec.get (hnum h)) :: acc)
       | ["vassign", h, g] => let st := applyOp st (.assign (hnum h) (hnum g)); go st rest (vecLine (hnum h) (st.spec.get (hnum h)) :: acc)
       | ["vmove", h, g] =>
